@@ -217,7 +217,7 @@ def _isinst1(E, v, t):
     if name in ("dict", "Dict"):
         return isinstance(v, Ref) and E.cell(v)[0] in ("pydict", "dict")
     if name == "set":
-        return isinstance(v, (frozenset,)) or (isinstance(v, Ref) and E.cell(v)[0] == "set")
+        return isinstance(v, (frozenset,)) or (isinstance(v, Ref) and E.cell(v)[0] == "set") or (isinstance(v, SV) and isinstance(v.ty, TSet))
     if name == "Sequence":
         return is_byteslike(v) or isinstance(v, (tuple, str)) or (isinstance(v, Ref) and E.cell(v)[0] in ("pylist", "seq"))
     raise Unsupported("isinstance against %r" % (t,))
